@@ -127,6 +127,25 @@ func oracleSameTree(c SCase, o *h.Obs) *h.Fail {
 			return nil
 		}
 		if !v.OK {
+			// is it about running at the same time at all? The program is run once more the plain way:
+			// parsed anew, alone. A difference there is the business of `evalorder` and gets its signature
+			plain := make([]*N, 0, len(c.Prog))
+			for _, st := range c.Prog {
+				if st.K != "setup" { // without the meeting points
+					plain = append(plain, st)
+				}
+			}
+			if vs := Judge(plain); !vs.OK && vs.Excluded == "" {
+				sig := "C07|" + vs.Clause
+				if vs.Clause == "trace" {
+					if b := blameForm(c.Prog, vs.Out.Trace, vs.GotTrace); b != "" {
+						sig += "|" + b
+					}
+				}
+				f := h.Failf(sig, "program (run alone, parsed anew; sub-check sametree met it first):\n%s\n%s", vs.Src, vs.Detail)
+				f.NoShrink = vs.Clause == "no-termination"
+				return f
+			}
 			who := fmt.Sprintf("round %d of %d, %s: ", r+1, rounds, v.Phase)
 			if c.Go {
 				what := map[bool]string{true: "the function had been called once before", false: "nobody had called the function before"}[c.Warm]
